@@ -3,7 +3,7 @@
 in a scratch worktree (/tmp/seedrun_wt, removed at the end; /repo itself is not touched), the check(s) recorded in its meta.json
 are run at the quick tier with VF_REPO pointing at the worktree, and the outcome is written back as meta["final_tree"]."""
 import glob, json, os, subprocess, sys
-WT = "/tmp/seedrun_wt"
+WT = os.environ.get("SEEDRUN_WT", "/tmp/seedrun_wt")          # several instances can run side by side on disjoint tag lists
 run = lambda cmd, **kw: subprocess.run(cmd, shell=True, capture_output=True, text=True, **kw)
 run(f"git -C /repo worktree remove --force {WT}")
 assert run(f"git -C /repo worktree add --detach {WT} HEAD").returncode == 0
@@ -23,7 +23,7 @@ try:
             continue
         out = {}
         for cid in checks:
-            env = dict(os.environ, VF_REPO=WT, VF_EVIDENCE_DIR=f"/tmp/seedrun_ev")
+            env = dict(os.environ, VF_REPO=WT, VF_EVIDENCE_DIR=WT + "_ev")
             r = subprocess.run(["./vf", cid, "quick"], cwd="/verif", env=env, capture_output=True, text=True)
             nv = sum(1 for l in r.stdout.splitlines() if l.startswith("VIOLATION"))
             out[cid] = {"exit_code": r.returncode, "violation_lines": nv, "detected": r.returncode == 1 and nv > 0}
@@ -32,4 +32,4 @@ try:
         print(tag, meta["final_tree"]["detected"], {k: (x["exit_code"], x["violation_lines"]) for k, x in out.items()}, flush=True)
 finally:
     run(f"git -C /repo worktree remove --force {WT}")
-    run("rm -rf /tmp/seedrun_ev")
+    run(f"rm -rf {WT}_ev")
